@@ -6,6 +6,8 @@ func init() {
 		[]string{"sync.RWMutex semantics", "DB.rwLock and SSTableManager.databaseLock are one mutex (checked)", "three structural exemptions: constructors, the pre-concurrency phase of Open, the tail of Close after both joins"},
 		func(r *Report) {
 			ruleLocks(r)
+			ruleDBIndexThreadSafe(r)
+			ruleEmptyIsAbsent(r)
 			ruleHandoff(r)
 			ruleRWMemstore(r)
 			ruleReaderRebuilt(r)
